@@ -14,7 +14,7 @@ are stated before the command reaches the code:
 from __future__ import annotations
 
 from symx import alg
-from harness import pipeline as pl
+from harness import pipeline as pl, plugin_util as pu
 from oracles import rs274
 
 ROLES_E = ["RET", "REC", "PRINT", "TRAVEL", "ZHOP", "SETE", "G20", "G21", "TRAVELX", "TRAVELE"]
@@ -28,7 +28,10 @@ EXCLUDABLE = [KF_OWED_MOVE, KF_RET_OWED]
 def scen(w, which="C04", K=4, firmware=0, kinds="r", roles=None, sequence=None):
     fw = bool(firmware)
     role_names = (roles.split(",") if roles else (ROLES_FW if fw else ROLES_E))
-    pipe = pl.Pipe(w, False)
+    # through the real plugin hooks (print active), so that hook-level changes are seen as well
+    plugin = pu.make_plugin(w, may_shrink=True)
+    pu.fire(plugin, "PRINT_STARTED")
+    pipe = pl.Pipe(w, plugin=plugin)
     kind = "rect" if (kinds == "r" or (kinds == "rd" and w.choose(2, "rkind") == 0)) else "disc"
     pipe.add_region(pl.fresh_region(w, kind, "r0"))
     pipe.prologue()
@@ -80,12 +83,38 @@ def scen(w, which="C04", K=4, firmware=0, kinds="r", roles=None, sequence=None):
             text = "G1 Z%s" % w.key(w.real("c%d_Z" % pipe.k))
         elif role == "SETE":
             text = "G92 E%s" % w.key(w.real("c%d_E" % pipe.k))
+        elif role in ("ATOFF", "ATON", "DELREGION"):
+            # pseudo steps: @-commands through the @-command hook, region deletion through the API path
+            pipe.program.append("<%s>" % role)
+            w.note("program", list(pipe.program))
+            if role == "DELREGION":
+                if not pipe.regions:
+                    pl.skip(w, "no region left")
+                plugin.on_api_command("deleteExcludeRegion", {"id": "r0"})
+                pipe.regions[:] = []
+                continue
+            comm = pu.CommStub()
+            ep_b = pipe.ep
+            plugin.handleAtCommandQueuing(comm, "queuing", "ExcludeRegion", "off" if role == "ATOFF" else "on")
+            for c in comm.sent:
+                P.execute(c)
+            if role == "ATOFF":
+                pipe.enabled = False
+                pipe.ep = False
+                if which == "C04":
+                    if w.check(alg.eq(P.e, V.e), "extruder-coordinate-in-sync",
+                               "after <%s> (episode open before: %s), sent %r" % (role, ep_b, comm.sent)) is False:
+                        return
+            else:
+                pipe.enabled = True
+            continue
         else:
             text = role
         rec = pipe.begin(text)
         # known-finding scenario classes (assumed away while the finding is open)
+        will_be_inside = rec.dest_inside if pipe.enabled else False
         if KF_OWED_MOVE in w.excluded and role == "PRINT" and owed is not False:
-            w.assume(alg.not_(alg.and_(owed, alg.not_(rec.dest_inside))))
+            w.assume(alg.not_(alg.and_(owed, alg.not_(will_be_inside))))
         if KF_RET_OWED in w.excluded and role in ("RET", "FRET", "FRET1") and owed is not False:
             w.assume(alg.not_(alg.and_(owed, alg.not_(rec.ep_before))))
         depth_v_before = V.depth() if not fw else None
